@@ -27,6 +27,9 @@ type c04sCase struct {
 	// pending the server's reader sits in the stream's packet buffer and reads nothing more - neither the cancel
 	// nor the EOF (known finding F19, same root as F5); with the exclusion on, no such message is sent.
 	Unread int
+	// HErr: the handler has no goroutines of its own and returns an error at once; the server's SendError is then
+	// the operation in flight (parked in the transport, since the client does not read) when the stop happens
+	HErr bool
 }
 
 func genC04S(t *rapid.T) c04sCase {
@@ -41,6 +44,7 @@ func genC04S(t *rapid.T) c04sCase {
 	}
 	c.Choices = rapid.SliceOfN(rapid.SampledFrom(c04Kinds), 0, 40).Draw(t, "choices")
 	c.Unread = rapid.IntRange(0, 2).Draw(t, "unread")
+	c.HErr = rapid.IntRange(0, 3).Draw(t, "herr") == 0
 	return c
 }
 
@@ -68,6 +72,10 @@ func runC04S(c c04sCase) (r pbt.Result) {
 	csteps = append(csteps, sim.Step{Op: "recv"})
 	rpc := sim.RPC{NoFinalClose: true, Client: sim.Prog{Steps: csteps},
 		Handler: sim.Prog{Steps: []sim.Step{{Op: "ret"}}}, HSubs: []sim.Prog{{Steps: c.HSends}, {Steps: recvs}}}
+	if c.HErr {
+		rpc.Handler, rpc.HSubs = sim.Prog{Steps: []sim.Step{{Op: "reterr"}}}, nil
+		rpc.ErrMsg = strings.Repeat("e", 300) // long enough to need the transport with every writer buffer
+	}
 	w := sim.NewWorld(c.Cfg, []sim.RPC{rpc})
 	defer w.Drain()
 	fail := func(f string, a ...any) {
@@ -96,7 +104,7 @@ func runC04S(c c04sCase) (r pbt.Result) {
 		}
 	}
 	// the client stops reading: server->client bytes are accepted by nobody
-	pre := sim.Filter{NoS2C: true, OnlyActors: func(n string) bool { return strings.HasPrefix(n, "h0.") }}
+	pre := sim.Filter{NoS2C: true, OnlyActors: func(n string) bool { return strings.HasPrefix(n, "h0.") || (c.HErr && n == "h0") }}
 	for i := 0; i < c.StepsAt; i++ {
 		if _, ok := w.Step(take(&choices), pre); !ok {
 			break
@@ -137,6 +145,15 @@ func runC04S(c c04sCase) (r pbt.Result) {
 		fail("handler operations still blocked after the cancellation / disconnect reached the server")
 		r.Detailf("still=%v", still)
 		return
+	}
+	if c.HErr {
+		// the handler has returned; what may still be in flight is the server's own SendError
+		for _, g := range w.Leaks(sim.Snapshot()) {
+			if strings.Contains(g.Frames, "drpcstream.(*Stream).SendError(") {
+				fail("the server's SendError is still blocked after the cancellation / disconnect reached the server")
+				return
+			}
+		}
 	}
 	select {
 	case <-hctx.Done():
@@ -182,6 +199,9 @@ func runC04S(c c04sCase) (r pbt.Result) {
 	if unread > 0 {
 		r.Label("client_messages_unread_at_the_stop")
 	}
+	if c.HErr {
+		r.Label("handler_returned_an_error")
+	}
 	if len(inFlight) >= 2 {
 		r.Label("handler_ops_inflight_2")
 	}
@@ -191,7 +211,7 @@ func runC04S(c c04sCase) (r pbt.Result) {
 	if parkedWrite {
 		r.Label("handler_send_parked_in_transport")
 	}
-	r.NonTrivial = len(inFlight) >= 1
+	r.NonTrivial = len(inFlight) >= 1 || (c.HErr && parkedWrite)
 	r.Key = strings.Join(w.Trace, ",") + fmt.Sprintf("|%+v", c)
 	r.Sample = map[string]any{"how": c.How, "in_flight": inFlight, "trace": clipTrace(w.Trace)}
 	return
